@@ -8,6 +8,7 @@ CONSTANTS
   BRANCH = 2
   DEPTHS = {}
   BIGDEPTHS = {}
+  TWINMOD = 8
   VARIANT = "ok"
   ALG = TRUE
 INVARIANTS TypeOK ModelOK MeasureNat AlgResultOK
